@@ -50,9 +50,12 @@ def main(args, decide_fn, props):
                     print("FALSE-ALARM %-40s %s" % (os.path.basename(mj)[:-5], "; ".join(v.split("obligation=")[-1][:90] for v in viol[:4])))
                 continue
             name = os.path.basename(mj)[:-5] if not mj.endswith("meta.json") else "seeded/" + os.path.basename(os.path.dirname(mj))
-            if ok:
+            if ok and meta.get("expect_input") and not any(re.search(exp, l) and "failing-input:" in l and re.search(meta["expect_input"], l) for l in viol):
+                bad += 1
+                print("NO-REPLAYED-INPUT %-30s caught, but the counterexample /%s/ was not confirmed on the real code" % (name, meta["expect_input"]))
+            elif ok:
                 hit = [l for l in viol if re.search(exp, l)][0]
-                print("CAUGHT %-40s %s" % (name, hit.split("obligation=")[1].split(" ")[0]))
+                print("CAUGHT %-40s %s%s" % (name, hit.split("obligation=")[1].split(" ")[0], "  [input replayed on the real code]" if "failing-input:" in hit else ""))
             else:
                 bad += 1
                 print("MISSED %-40s expected /%s/ got %d violations: %s" % (name, exp, len(viol), "; ".join(v.split("obligation=")[-1][:90] for v in viol[:4])))
